@@ -69,6 +69,8 @@ pub struct IH {
     pub lp: AssetInfo,
     pub reward: AssetInfo,
     pub fee: AssetInfo,
+    /// an unrelated cw20 token (C12 only): expansions naming it must not fund a flow
+    pub foreign: Option<String>,
     pub root: IncRoot,
 }
 
@@ -102,6 +104,8 @@ pub enum IAct {
     Close { user: String, dur: usize },
     Withdraw { user: String },
     Helper { user: String, dur: usize },
+    /// helper deposit with more native coins attached than the message declares
+    HelperOverfunded { user: String, dur: usize },
     Tick,
     Snapshot { user: String },
     Claim { user: String },
@@ -262,7 +266,16 @@ impl IncScn {
                 }
             }
         }
-        IH { collector, mockdist, ifactory, incentive, helper, pair, lp, reward, fee, root: r.clone() }
+        let foreign = if self.property == "C12" {
+            let t = w.new_cw20("xtok", 6, &[], OWNER);
+            for u in &everyone {
+                fund(w, &token(&t), u, FUND);
+            }
+            Some(t)
+        } else {
+            None
+        };
+        IH { collector, mockdist, ifactory, incentive, helper, pair, lp, reward, fee, foreign, root: r.clone() }
     }
 
     fn lp_funds(&self, h: &IH, w: &mut World, user: &str, amount: u128) -> Vec<Coin> {
@@ -418,6 +431,9 @@ impl Scenario for IncScn {
                 if h.pair.is_some() {
                     v.push(IAct::Helper { user: us[0].clone(), dur: 0 });
                     v.push(IAct::Helper { user: us[1].clone(), dur: 2 });
+                    if h.pair.as_ref().unwrap().assets.iter().any(|a| matches!(a, AssetInfo::NativeToken { .. })) {
+                        v.push(IAct::HelperOverfunded { user: us[1].clone(), dur: 0 });
+                    }
                 }
                 v.push(IAct::Tick);
                 v.push(IAct::Snapshot { user: MALLORY.into() });
@@ -468,6 +484,8 @@ impl Scenario for IncScn {
                     v.push(IAct::ExpandFlow { id: *id, amount: 5000, funds: "exact@end".into(), by: f.creator.clone() });
                     // "@far": the expansion moves the end more than 180 epochs past the start (the flow is re-based)
                     v.push(IAct::ExpandFlow { id: *id, amount: 4000, funds: "exact@far".into(), by: f.creator.clone() });
+                    // the message names an unrelated cw20 token (approved by the sender) instead of the flow's reward asset
+                    v.push(IAct::ExpandFlow { id: *id, amount: 6000, funds: "foreign_cw20".into(), by: f.creator.clone() });
                     v.push(IAct::CloseFlow { id: *id, by: f.creator.clone() });
                     v.push(IAct::CloseFlow { id: *id, by: OWNER.into() });
                     v.push(IAct::CloseFlow { id: *id, by: MALLORY.into() });
@@ -719,6 +737,28 @@ impl Scenario for IncScn {
                     cx.check("helper.retains_nothing", held == [0, 0, 0], || format!("frontend helper holds {:?} (asset0, asset1, LP) after a deposit call", held));
                 }
             }
+            IAct::HelperOverfunded { user, dur } => {
+                let p = h.pair.as_ref().unwrap();
+                let d = [1000u128, 1000u128];
+                let assets = [asset(&p.assets[0], d[0]), asset(&p.assets[1], d[1])];
+                let over = [asset(&p.assets[0], d[0] + 500), asset(&p.assets[1], d[1] + 500)];
+                let lp_before = bal(w, &h.lp, &h.incentive);
+                let r = w.exec(
+                    user,
+                    &h.helper,
+                    &white_whale_std::pool_network::frontend_helper::ExecuteMsg::Deposit { pair_address: p.addr.clone(), assets: assets.clone(), slippage_tolerance: None, unbonding_duration: DURS[*dur] },
+                    &funds_for(&over),
+                );
+                if r.is_ok() {
+                    cx.count("helper_overfunded:accepted");
+                    let got = bal(w, &h.lp, &h.incentive) - lp_before;
+                    *g.open.entry((user.clone(), DURS[*dur])).or_insert(0) += got;
+                } else {
+                    cx.count("helper_overfunded:rejected");
+                }
+                let held = [bal(w, &p.assets[0], &h.helper), bal(w, &p.assets[1], &h.helper), bal(w, &h.lp, &h.helper)];
+                cx.check("helper.retains_nothing", held == [0, 0, 0], || format!("frontend helper holds {:?} (asset0, asset1, LP) after a deposit call with surplus funds attached", held));
+            }
             IAct::Tick => {
                 w.exec(MALLORY, &h.mockdist, &white_whale_std::fee_distributor::ExecuteMsg::NewEpoch {}, &[]).expect("mock new epoch");
                 g.epoch += 1;
@@ -876,7 +916,7 @@ impl Scenario for IncScn {
                     }
                 };
                 let ib = bal(w, &h.reward, &h.incentive);
-                let before = flows_of(w, h).iter().find(|f| f.flow_id == *id).map(flow_amount);
+                let before = flows_of(w, h).iter().find(|f| f.flow_id == *id).map(|f| (flow_amount(f), f.claimed_amount.u128()));
                 let end_epoch = if funds.ends_with("@end") {
                     flows_of(w, h).iter().find(|f| f.flow_id == *id).map(|f| f.end_epoch)
                 } else if funds.ends_with("@far") {
@@ -884,16 +924,41 @@ impl Scenario for IncScn {
                 } else {
                     None
                 };
-                let r = inc_exec(w, h, by, &IncExec::ExpandFlow { flow_identifier: FlowIdentifier::Id(*id), end_epoch, flow_asset: asset(&h.reward, amt) }, &coins);
+                let (msg_asset, coins) = if funds == "foreign_cw20" {
+                    let x = h.foreign.as_ref().expect("foreign token");
+                    set_allowance(w, x, by, &h.incentive, amt);
+                    if let AssetInfo::Token { contract_addr } = &h.reward {
+                        set_allowance(w, contract_addr, by, &h.incentive, 0);
+                    }
+                    (asset(&token(x), amt), vec![])
+                } else {
+                    (asset(&h.reward, amt), coins)
+                };
+                let r = inc_exec(w, h, by, &IncExec::ExpandFlow { flow_identifier: FlowIdentifier::Id(*id), end_epoch, flow_asset: msg_asset }, &coins);
+                if funds == "foreign_cw20" {
+                    set_allowance(w, h.foreign.as_ref().unwrap(), by, &h.incentive, 0);
+                }
+                cx.note(|| format!("flow after: {:?}", flows_of(w, h).iter().find(|f| f.flow_id == *id)));
                 match &r {
                     Ok(_) => {
                         cx.count("expandflow:ok");
                         let received = bal(w, &h.reward, &h.incentive) - ib;
                         if c12 {
-                            let after = flows_of(w, h).iter().find(|f| f.flow_id == *id).map(flow_amount);
-                            cx.check("expand_flow.funded_amount_grows_by_tokens_received", after.zip(before).map(|(x, y)| x == y + received) == Some(true), || {
-                                format!("ExpandFlow {} by {}: contract received {} but the flow amount went {:?} -> {:?}", id, amt, received, before, after)
+                            // (funded, claimed) before and after. An expansion that moves the end more than 180 epochs
+                            // past the start re-bases the flow: what was claimed so far is taken off both numbers, so
+                            // the quantity that must grow by exactly the tokens received is funded - claimed
+                            let after = flows_of(w, h).iter().find(|f| f.flow_id == *id).map(|f| (flow_amount(f), f.claimed_amount.u128()));
+                            cx.check("expand_flow.funded_amount_grows_by_tokens_received", after.zip(before).map(|(x, y)| x.0 >= x.1 && y.0 >= y.1 && x.0 - x.1 == y.0 - y.1 + received && (x.1 == y.1 || x.1 == 0)) == Some(true), || {
+                                format!("ExpandFlow {} by {}: contract received {} but the flow's (funded, claimed) went {:?} -> {:?}", id, amt, received, before, after)
                             });
+                            if let (Some(x), Some(y)) = (after, before) {
+                                if x.1 < y.1 {
+                                    cx.count("expandflow:rebased");
+                                    if let Some(f) = g.flows.get_mut(id) {
+                                        f.funded = f.funded.saturating_sub(y.1 - x.1);
+                                    }
+                                }
+                            }
                         }
                         if let Some(f) = g.flows.get_mut(id) {
                             f.funded += received;
